@@ -27,7 +27,7 @@ ASSUMPTIONS = ['a window end that coincides with a tabulated wavelength may go e
                'an empty window (no wavelength strictly inside) is outside the quantifier and not generated',
                'requested wavelengths exactly half-way between two tabulated ones are not generated']
 PROBES = ['window_end_on_node_included', 'window_end_on_node_excluded', 'single_wavelength_window', 'default_window', 'chunk_size_1',
-          'chunk_smaller_than_window', 'multi_aperture', 'cube_slice_checked', 'cube_memmap', 'cube_request_between', 'cube_request_outside']
+          'chunk_smaller_than_window', 'multi_aperture', 'cube_slice_checked', 'cube_memmap', 'cube_request_between', 'cube_request_outside', 'prelude_epoch']
 
 
 def budgets(tier):
@@ -78,6 +78,9 @@ def generate(rng, tier, idx):
     cube['source_seed'] = rng.randrange(1 << 30)
     cube['wav_unit'] = rng.choice(['micron', 'micron', 'Angstrom', 'nm', 'mm', 'm'])
     sc['cube'] = cube if rng.random() < 0.6 else None
+    if rng.random() < 0.3:
+        from ..author import prelude_spec
+        sc['prelude'] = {'world': prelude_spec(w, rng), 'seed': rng.randrange(1 << 30), 'fmt': 1}
     return sc
 
 
@@ -109,6 +112,9 @@ def _execute(sc, sim, out):
     from astropy import units as u
     spec = sc['world']
     W = World(spec)
+    if sc.get('prelude'):
+        sc['av_range'], sc['drange'] = [0., 1.], [1., 2.]
+        pipe.run_prelude(sim, sc, out, stages=('mono',), d=sim.path('pkg'))
     d = W.write(sim.path('pkg'), fmt=1)
     sw = np.array(W.wav, float)
     n_wav = len(sw)
@@ -283,6 +289,8 @@ def _cube_part(sc, cube, sim, out, W, trace):
 
 
 def lowerings(sc, viol=None):
+    if sc.get('prelude'):
+        yield dict(sc, prelude=None)
     if sc.get('cube') is not None:
         yield dict(sc, cube=None)
         c = sc['cube']
